@@ -1054,6 +1054,12 @@ func (v *Verifier) runPartition(pkg *ssa.Package, fn *ssa.Function, c *Contract,
 	}
 	for i := range fr.returns {
 		if fr.returns[i].ret != nil {
+			// an argument slice (or pointer) kept inside an object that is returned outlives the call
+			v.escapeThroughResult(fr.returns[i].ret, fr.returns[i].st, map[*Object]bool{})
+		}
+	}
+	for i := range fr.returns {
+		if fr.returns[i].ret != nil {
 			fr.returns[i].st.env()[fn] = fr.returns[i].ret
 		}
 	}
